@@ -634,10 +634,10 @@ class HierarchyElement(DiagLayer):
             # bus is not CAN
             return None
 
-        val = com_param.value
-        if not isinstance(val, str):
+        if not isinstance(com_param.value, str):
             return None
 
+        val = com_param.get_value()
         m = re.search("TX_DL *= *([0-9]*)", val)
         if m:
             return int(m.group(1))
@@ -668,7 +668,10 @@ class HierarchyElement(DiagLayer):
         if com_param is None:
             return False
 
-        return "CANFD" in com_param.value
+        if not isinstance(com_param.value, str):
+            return False
+
+        return "CANFD" in com_param.get_value()
 
     def get_can_baudrate(self, protocol: Optional[Union[str, "Protocol"]] = None) -> Optional[int]:
         """Baudrate of the CAN bus which is used by the ECU [bits/s]
@@ -681,11 +684,10 @@ class HierarchyElement(DiagLayer):
         if com_param is None:
             return None
 
-        val = com_param.value
-        if not isinstance(val, str):
+        if not isinstance(com_param.value, str):
             return None
 
-        return int(val)
+        return int(com_param.get_value())
 
     def get_can_fd_baudrate(self,
                             protocol: Optional[Union[str, "Protocol"]] = None) -> Optional[int]:
@@ -701,11 +703,10 @@ class HierarchyElement(DiagLayer):
         if com_param is None:
             return None
 
-        val = com_param.value
-        if not isinstance(val, str):
+        if not isinstance(com_param.value, str):
             return None
 
-        return int(val)
+        return int(com_param.get_value())
 
     def get_can_receive_id(self,
                            protocol: Optional[Union[str, "Protocol"]] = None) -> Optional[int]:
